@@ -30,7 +30,9 @@ static inline bool q_serialish(int kind) { return kind == QK_SERIAL || kind == Q
 
 /* ------------------------------------------------------------------ generation */
 
+static int focus_q = -1;   // the queue that is moved during the run: half of those runs aim most of their traffic at it and at its new target
 static void gen_queues(void) {
+	focus_q = -1;
 	nq = g_range(G->min_queues, G->max_queues);
 	if (nq > QMAX) nq = QMAX;
 	for (int i = 0; i < nq; i++) {
@@ -72,20 +74,28 @@ static void gen_queues(void) {
 	// C03: one active leaf queue (created by dispatch_queue_create, targeted by nobody) may be moved under another
 	// queue while it is in use; nobody blocks on it and its items do not block (the wait-for order of the trees
 	// would otherwise change under the program's feet)
-	if (G->retarget && g_chance(1, 3)) {
-		int rc[QMAX], nr = 0;
-		for (int i = 0; i < nq; i++) {
-			if ((Q[i].kind != QK_SERIAL && Q[i].kind != QK_CONC) || Q[i].target >= 0 || Q[i].inactive) continue;
-			int targeted = 0; for (int j = 0; j < nq; j++) if (Q[j].target == i) targeted = 1;
-			if (!targeted) rc[nr++] = i;
-		}
-		if (nr) {
+	if (G->retarget && g_chance(G->retarget, 6)) {
+		// two thirds of those runs aim most of their traffic at the moved queues and their new targets, and move up to
+		// three queues (the window in which a retarget can go wrong opens once per moved queue)
+		int focus = g_chance(2, 3), nmove = focus ? g_range(1, 3) : 1;
+		bool is_target[QMAX] = { false };
+		for (int m = 0; m < nmove; m++) {
+			int rc[QMAX], nr = 0;
+			for (int i = 0; i < nq; i++) {
+				if ((Q[i].kind != QK_SERIAL && Q[i].kind != QK_CONC) || Q[i].target >= 0 || Q[i].inactive || Q[i].retarget_to >= 0 || is_target[i]) continue;
+				int targeted = 0; for (int j = 0; j < nq; j++) if (Q[j].target == i) targeted = 1;
+				if (!targeted) rc[nr++] = i;
+			}
+			if (!nr) break;
 			int r = rc[g_n((uint32_t)nr)], tc[QMAX], nt = 0;
-			for (int i = 0; i < nq; i++) if (i != r && (Q[i].kind == QK_SERIAL || Q[i].kind == QK_CONC || Q[i].kind == QK_WORKLOOP) && Q[i].depth + 1 < G->max_qdepth) {
+			for (int i = 0; i < nq; i++) if (i != r && Q[i].retarget_to < 0 && (Q[i].kind == QK_SERIAL || Q[i].kind == QK_CONC || Q[i].kind == QK_WORKLOOP) && Q[i].depth + 1 < G->max_qdepth) {
 				int chain_active = 1; for (int j = i; j >= 0; j = Q[j].target) if (Q[j].inactive) chain_active = 0;   // the thread that retargets also blocks on the moved queue
 				if (chain_active) tc[nt++] = i;
 			}
-			if (nt) Q[r].retarget_to = tc[g_n((uint32_t)nt)];
+			if (!nt) break;
+			Q[r].retarget_to = tc[g_n((uint32_t)nt)]; is_target[Q[r].retarget_to] = true;
+			for (int j = Q[r].retarget_to; j >= 0; j = Q[j].target) is_target[j] = true;
+			if (focus) focus_q = r;
 		}
 	}
 }
@@ -118,6 +128,11 @@ static int pick_queue(const gctx *c, bool blocking) {
 	}
 	if (!n) return -1;
 	if (G->single_queue && c->from_q < 0) return 0;
+	if (focus_q >= 0 && g_chance(3, 5)) {
+		int mv[QMAX], nm = 0; for (int i = 0; i < nq; i++) if (Q[i].retarget_to >= 0) mv[nm++] = i;
+		int f = mv[g_n((uint32_t)nm)], want = g_chance(3, 5) ? f : Q[f].retarget_to;
+		for (int i = 0; i < n; i++) if (cand[i] == want) return want;
+	}
 	return cand[g_n((uint32_t)n)];
 }
 
@@ -131,6 +146,11 @@ static void gen_body(qop *op, gctx c) {
 		bodies[nb++] = b;
 	}
 	op->body = nb ? bodies[g_n((uint32_t)nb)] : B_EMPTY;
+	if (focus_q >= 0 && op->body != B_NEST && g_chance(1, 2)) {
+		// focused runs: the new targets of the moved queues are busy for a while with each item (an item of a moved
+		// queue that runs outside its new hierarchy then has something to overlap with)
+		for (int i = 0; i < nq; i++) if (Q[i].retarget_to >= 0) for (int j = Q[i].retarget_to; j >= 0; j = Q[j].target) if (j == op->q) op->body = B_SLEEP;
+	}
 	op->body_arg = op->body == B_YIELD ? g_range(1, 4) : op->body == B_SLEEP ? g_range(1, 300) : 0;
 	if (op->body == B_NEST) {
 		gctx cc = c; cc.parent_item = op->item; cc.from_q = op->q; cc.depth = c.depth + 1; cc.client = -1;
@@ -148,7 +168,7 @@ static bool gen_one(qop *op, gctx c) {
 	op->idx = next_op_idx++;
 	op->wait_item = -1; op->item = -1;
 	int kinds[OP_N], nk = 0;
-	for (int k = 0; k < OP_N; k++) if (G->opmask & (1u << k)) {
+	for (int k = 0; k < OP_N; k++) if ((G->opmask & (1u << k)) || (k == OP_PAUSE && focus_q >= 0)) {   // (pauses let the moved queue run empty between submissions)
 		if (G->gate && op_is_sync(k)) continue;
 		if (c.noblock && op_is_sync(k)) continue;
 		if (k == OP_SUSPEND && (c.noblock || c.depth > 1)) continue;
@@ -282,22 +302,29 @@ static void gen_program(void) {
 		// replay is kept as findings/OBS-legacy-retarget-racing-sync-in-flight.replay), whereas one issued after the
 		// call has returned queues up behind the retarget and is well defined.
 		int nsync = (int)g_n(3);
-		qop *ops = xzalloc(sizeof(qop) * (size_t)(client_nops[c] + 1 + nsync));
+		// in the focused runs often: the queue is busy when its target is changed (the change is then applied by a
+		// barrier item of the queue itself, usually its last item) and the same thread submits to it again right
+		// behind the call
+		int npre = focus_q >= 0 && g_chance(2, 3) ? 1 : 0, npost = focus_q >= 0 ? (int)g_n(3) : 0;
+		qop *ops = xzalloc(sizeof(qop) * (size_t)(client_nops[c] + 1 + nsync + npre + npost));
 		// (behind this client's activations: everything in front of an activation must be non-blocking)
 		int minpos = 0; for (int k = 0; k < client_nops[c]; k++) if (client_ops[c][k].kind == OP_ACTIVATE) minpos = k + 1;
 		int pos = minpos + (int)g_n((uint32_t)(client_nops[c] - minpos) + 1);
 		memcpy(ops, client_ops[c], sizeof(qop) * (size_t)pos);
-		qop *a = &ops[pos]; memset(a, 0, sizeof *a);
-		a->idx = next_op_idx++; a->kind = OP_RETARGET; a->q = i; a->wait_item = -1; a->item = -1;
-		for (int k = 0; k < nsync; k++) {
-			static const int sk[] = { OP_SYNC, OP_BARRIER_SYNC, OP_AAW, OP_BARRIER_AAW };
-			qop *y = &ops[pos + 1 + k]; memset(y, 0, sizeof *y);
-			y->idx = next_op_idx++; y->kind = sk[g_n(4)]; y->q = i; y->form = (int)g_n(2); y->wait_item = -1; y->body = g_chance(1, 2) ? B_YIELD : B_EMPTY; y->body_arg = 1;
+		int n = pos;
+		for (int k = 0; k < npre + 1 + npost + nsync; k++) {
+			qop *y = &ops[n]; memset(y, 0, sizeof *y);
+			y->idx = next_op_idx++; y->q = i; y->wait_item = -1; y->item = -1;
+			if (k == npre) { y->kind = OP_RETARGET; n++; continue; }
+			if (k < npre || k <= npre + npost) { y->kind = g_chance(3, 4) ? OP_ASYNC : OP_BARRIER_ASYNC; y->body = k < npre ? B_YIELD : (g_chance(1, 2) ? B_YIELD : B_EMPTY); y->body_arg = g_range(1, 4); }
+			else { static const int sk[] = { OP_SYNC, OP_BARRIER_SYNC, OP_AAW, OP_BARRIER_AAW }; y->kind = sk[g_n(4)]; y->body = g_chance(1, 2) ? B_YIELD : B_EMPTY; y->body_arg = 1; }
+			y->form = (int)g_n(2);
 			y->item = new_item(y, c, -1, -1);
-			if (y->item < 0) { nsync = k; break; }
+			if (y->item < 0) break;
+			n++;
 		}
-		memcpy(ops + pos + 1 + nsync, client_ops[c] + pos, sizeof(qop) * (size_t)(client_nops[c] - pos));
-		client_ops[c] = ops; client_nops[c] += 1 + nsync;
+		memcpy(ops + n, client_ops[c] + pos, sizeof(qop) * (size_t)(client_nops[c] - pos));
+		client_ops[c] = ops; client_nops[c] += n - pos;
 	}
 	if (G->poolblock) {
 		// every pool thread blocked inside an item that waits for a later item of the same global queue
@@ -426,6 +453,22 @@ static uint64_t pay(uint64_t seed, int id, int k) { uint64_t x = seed ^ ((uint64
 static void check_specific(qitem *it) {
 	if (!(G->oracles & O_SPECIFIC)) return;
 	if (it->op->apply_auto) return;   // DISPATCH_APPLY_AUTO picks a root queue of its own choosing
+	if (Q[it->q].retarget_to >= 0) {
+		// a queue that changes its target during the run: an item submitted after dispatch_set_target_queue returned
+		// runs behind the change, i.e. inside the new chain (keys, asserts); earlier ones are only asserted on their queue
+		dispatch_assert_queue(Q[it->q].q); RES.counters[QC_ASSERTS]++;
+		if (it->dom_new_chain) {
+			for (int q = Q[it->q].retarget_to; q >= 0; q = Q[q].target) { dispatch_assert_queue(Q[q].q); RES.counters[QC_ASSERTS]++; }
+			for (int k = 0; k < 4; k++) {
+				void *want = Q[it->q].spec[k];
+				for (int q = Q[it->q].retarget_to; q >= 0 && !want; q = Q[q].target) if (Q[q].spec[k]) want = Q[q].spec[k];
+				void *got = dispatch_get_specific(&keys[k]);
+				RES.counters[QC_SPECIFIC_CHECKS]++;
+				if (got != want) h_viol("get-specific", "item %d (op #%d %s on q%d, submitted after q%d was moved under q%d): dispatch_get_specific(key%d)=%p, model says %p", it->id, it->op_idx, opnames[it->opkind], it->q, it->q, Q[it->q].retarget_to, k, got, want);
+			}
+		}
+		return;
+	}
 	for (int k = 0; k < 4; k++) {
 		void *want = NULL;
 		for (int q = it->q; q >= 0; q = Q[q].target) if (Q[q].spec[k]) { want = Q[q].spec[k]; break; }
@@ -558,6 +601,7 @@ static void prep_item(qitem *it) {
 	if (qn->retarget_to >= 0 && qn->rt_call) {
 		int nd = Q[qn->retarget_to].dom >= 0 ? Q[qn->retarget_to].dom : qn->dom;
 		it->dom = qn->rt_ret ? nd : -2;   // submitted while dispatch_set_target_queue was in progress: either
+		it->dom_new_chain = qn->rt_ret != 0;
 	}
 }
 
